@@ -105,9 +105,39 @@ Definition obj_check (f : list (string * json) -> bool) (j : json) : bool :=
 Definition len_N {A} (l : list A) : N := N.of_nat (List.length l).
 
 (* ------------------------------------------------------------------ *)
-(* 4. the validator: outer recursion on fuel ($ref), inner on the schema *)
+(* 4. the validator: recursion on the schema; outer recursion on fuel for $ref *)
 
-Fixpoint validate (E : env) (fuel : nat) {struct fuel} : schema -> json -> option bool :=
+(* properties + additionalProperties on the members o of an object *)
+Definition props3 (vs : schema -> json -> option bool) (ps : list (string * schema)) (addl : option schema)
+           (o : list (string * json)) : option bool :=
+  and3
+    (all3 (map (fun ks => match jassoc (fst ks) o with
+                          | Some v => vs (snd ks) v
+                          | None => Some true
+                          end) ps))
+    (match addl with
+     | None => Some true
+     | Some a => all3 (map (fun kv => if jmem (fst kv) ps then Some true else vs a (snd kv)) o)
+     end).
+
+(* prefix schemas position by position, then `rest` for the remaining elements *)
+Definition items3 (vs : schema -> json -> option bool) (rest : option schema) : list schema -> list json -> option bool :=
+  fix go (ps : list schema) (xs : list json) {struct ps} : option bool :=
+    match ps with
+    | [] =>
+        match rest with
+        | None => Some true
+        | Some r => all3 (map (vs r) xs)
+        end
+    | p :: ps' =>
+        match xs with
+        | [] => Some true
+        | x :: xs' => and3 (vs p x) (go ps' xs')
+        end
+    end.
+
+(* one pass over the schema; `ref t j` is the verdict of the target of "$ref": t on j *)
+Definition validate_body (ref : string -> json -> option bool) : schema -> json -> option bool :=
   fix vs (S : schema) : json -> option bool :=
     fun j =>
     match S with
@@ -129,50 +159,32 @@ Fixpoint validate (E : env) (fuel : nat) {struct fuel} : schema -> json -> optio
     | SRequired ks => b3 (obj_check (fun o => forallb (fun k => jmem k o) ks) j)
     | SProps ps addl =>
         match j with
-        | JObj o =>
-            and3
-              (all3 (map (fun ks => match jassoc (fst ks) o with
-                                    | Some v => vs (snd ks) v
-                                    | None => Some true
-                                    end) ps))
-              (match addl with
-               | None => Some true
-               | Some a => all3 (map (fun kv => if jmem (fst kv) ps then Some true else vs a (snd kv)) o)
-               end)
+        | JObj o => props3 vs ps addl o
         | _ => Some true
         end
     | SItems prefix rest =>
         match j with
-        | JArr xs =>
-            (fix go (ps : list schema) (xs : list json) {struct ps} : option bool :=
-               match ps with
-               | [] =>
-                   match rest with
-                   | None => Some true
-                   | Some r => all3 (map (vs r) xs)
-                   end
-               | p :: ps' =>
-                   match xs with
-                   | [] => Some true
-                   | x :: xs' => and3 (vs p x) (go ps' xs')
-                   end
-               end) prefix xs
+        | JArr xs => items3 vs rest prefix xs
         | _ => Some true
         end
     | SAllOf l => all3 (map (fun s => vs s j) l)
     | SAnyOf l => any3 (map (fun s => vs s j) l)
     | SOneOf l => one3 (map (fun s => vs s j) l)
     | SNot s => not3 (vs s j)
-    | SRef t =>
-        match fuel with
-        | O => None
-        | Datatypes.S f =>
-            match jassoc t E with
-            | Some S' => validate E f S' j
-            | None => None
-            end
-        end
+    | SRef t => ref t j
     end.
+
+(* following a $ref costs one unit of fuel; None = out of fuel or unresolved *)
+Fixpoint validate (E : env) (fuel : nat) {struct fuel} : schema -> json -> option bool :=
+  validate_body (fun t j =>
+    match fuel with
+    | O => None
+    | Datatypes.S f =>
+        match jassoc t E with
+        | Some S' => validate E f S' j
+        | None => None
+        end
+    end).
 
 (* ------------------------------------------------------------------ *)
 (* 5. compiling a schema document (a JSON value) under a draft.
@@ -232,6 +244,12 @@ Fixpoint jtype_nodup (l : list jtype) : bool :=
   match l with
   | [] => true
   | h :: t => negb (existsb (jtype_eqb h) t) && jtype_nodup t
+  end.
+
+Fixpoint json_nodup (l : list json) : bool :=
+  match l with
+  | [] => true
+  | h :: t => negb (existsb (json_eqb h) t) && json_nodup t
   end.
 
 Fixpoint opt_all {A} (l : list (option A)) : option (list A) :=
@@ -398,104 +416,101 @@ Definition lift_schema (r : res schema) (f : schema -> ckw) : res (list ckw) :=
 Definition lift_list (r : res (list schema)) (f : list schema -> ckw) : res (list ckw) :=
   match r with Ok s => Ok [f s] | Err e => Err e | Panic w => Panic w | Diverge => Diverge end.
 
-(* compile one schema document node; returns the schema and the compiled members
-   (the root needs them for its definitions) *)
-Fixpoint compile_node (d : draft) (j : json) {struct j} : res (schema * list ckw) :=
-  let sub (v : json) : res schema :=
-    match compile_node d v with Ok (s, _) => Ok s | Err e => Err e | Panic w => Panic w | Diverge => Diverge end in
+Definition res_map {A B} (f : A -> B) (r : res A) : res B :=
+  match r with Ok a => Ok (f a) | Err e => Err e | Panic w => Panic w | Diverge => Diverge end.
+
+(* one member (k, v) of a schema object; `rec` compiles a subschema *)
+Definition compile_member (rec : json -> res schema) (d : draft) (k : string) (v : json) : res (list ckw) :=
+  let sub := rec in
   let sub_list (v : json) (nonempty : bool) : res (list schema) :=
     match v with
-    | JArr l =>
-        if nonempty && Nat.eqb (List.length l) 0 then E_schema
-        else seq_res (map (fun x => match compile_node d x with
-                                    | Ok (s, _) => Ok s | Err e => Err e | Panic w => Panic w | Diverge => Diverge
-                                    end) l)
+    | JArr l => if nonempty && Nat.eqb (List.length l) 0 then E_schema else seq_res (map rec l)
     | _ => E_schema
     end in
   let sub_map (v : json) : res (list (string * schema)) :=
     match v with
-    | JObj o =>
-        seq_res (map (fun kv => match compile_node d (snd kv) with
-                                | Ok (s, _) => Ok (fst kv, s) | Err e => Err e | Panic w => Panic w | Diverge => Diverge
-                                end) o)
+    | JObj o => seq_res (map (fun kv => res_map (fun s => (fst kv, s)) (rec (snd kv))) o)
     | _ => E_schema
     end in
+          if String.eqb k "$ref" then compile_ref d v
+  else if String.eqb k "$schema" then (match v with JStr _ => Ok [] | _ => E_schema end)
+  else if String.eqb k "$comment" || String.eqb k "title" || String.eqb k "description" then
+    (match v with JStr _ => Ok [] | _ => E_schema end)
+  else if String.eqb k "definitions" then
+    (match sub_map v with Ok ds => Ok [CDefs "definitions" ds] | Err e => Err e | Panic w => Panic w | Diverge => Diverge end)
+  else if String.eqb k "$defs" then
+    (match d with
+     | D2020 => match sub_map v with Ok ds => Ok [CDefs "$defs" ds] | Err e => Err e | Panic w => Panic w | Diverge => Diverge end
+     | D7 => Ok []
+     end)
+  else if String.eqb k "type" then lift_schema (compile_type v) CSimple
+  else if String.eqb k "enum" then
+    (match v with
+     | JArr vals =>
+         match d with
+         | D7 => if Nat.eqb (List.length vals) 0 || negb (json_nodup vals) then E_schema
+                 else Ok [CSimple (SEnum vals)]
+         | D2020 => Ok [CSimple (SEnum vals)]
+         end
+     | _ => E_schema
+     end)
+  else if String.eqb k "const" then Ok [CSimple (SConst v)]
+  else if String.eqb k "minimum" then compile_num SMin v
+  else if String.eqb k "maximum" then compile_num SMax v
+  else if String.eqb k "exclusiveMinimum" then compile_num SXMin v
+  else if String.eqb k "exclusiveMaximum" then compile_num SXMax v
+  else if String.eqb k "multipleOf" then
+    (match v with JNum q => if Qlt_bool 0 q then Ok [CSimple (SMultipleOf q)] else E_schema | _ => E_schema end)
+  else if String.eqb k "minLength" then compile_count SMinLen v
+  else if String.eqb k "maxLength" then compile_count SMaxLen v
+  else if String.eqb k "minItems" then compile_count SMinItems v
+  else if String.eqb k "maxItems" then compile_count SMaxItems v
+  else if String.eqb k "pattern" then
+    (match v with
+     | JStr p => match parse_pattern p with Some q => Ok [CSimple (SPattern q)] | None => E_unsupported end
+     | _ => E_schema
+     end)
+  else if String.eqb k "required" then
+    (match v with
+     | JArr l => match opt_all (map as_string l) with
+                 | Some ks => if str_nodup ks then Ok [CSimple (SRequired ks)] else E_schema
+                 | None => E_schema
+                 end
+     | _ => E_schema
+     end)
+  else if String.eqb k "properties" then
+    (match sub_map v with Ok ps => Ok [CProps ps] | Err e => Err e | Panic w => Panic w | Diverge => Diverge end)
+  else if String.eqb k "additionalProperties" then lift_schema (sub v) CAddProps
+  else if String.eqb k "items" then
+    (match v with
+     | JArr _ =>
+         match d with
+         | D7 => lift_list (sub_list v false) CItemsA
+         | D2020 => E_schema
+         end
+     | _ => lift_schema (sub v) CItemsS
+     end)
+  else if String.eqb k "additionalItems" then
+    (match d with D7 => lift_schema (sub v) CAddItems | D2020 => Ok [] end)
+  else if String.eqb k "prefixItems" then
+    (match d with D2020 => lift_list (sub_list v true) CPrefix | D7 => Ok [] end)
+  else if String.eqb k "allOf" then lift_list (sub_list v true) (fun l => CSimple (SAllOf l))
+  else if String.eqb k "anyOf" then lift_list (sub_list v true) (fun l => CSimple (SAnyOf l))
+  else if String.eqb k "oneOf" then lift_list (sub_list v true) (fun l => CSimple (SOneOf l))
+  else if String.eqb k "not" then lift_schema (sub v) (fun s => CSimple (SNot s))
+  else if str_in k unmodelled_keywords then E_unsupported
+  else Ok []                                   (* unknown member: ignored, its value is not inspected *)
+.
+
+(* compile one schema document node; returns the schema and the compiled members
+   (the root needs them for its definitions) *)
+Fixpoint compile_node (d : draft) (j : json) {struct j} : res (schema * list ckw) :=
   match j with
   | JBool true => Ok (STrue, [])
   | JBool false => Ok (SFalse, [])
   | JObj o =>
-      match seq_res (map (fun kv =>
-          let k := fst kv in
-          let v := snd kv in
-          if String.eqb k "$ref" then compile_ref d v
-          else if String.eqb k "$schema" then (match v with JStr _ => Ok [] | _ => E_schema end)
-          else if String.eqb k "$comment" || String.eqb k "title" || String.eqb k "description" then
-            (match v with JStr _ => Ok [] | _ => E_schema end)
-          else if String.eqb k "definitions" then
-            (match sub_map v with Ok ds => Ok [CDefs "definitions" ds] | Err e => Err e | Panic w => Panic w | Diverge => Diverge end)
-          else if String.eqb k "$defs" then
-            (match d with
-             | D2020 => match sub_map v with Ok ds => Ok [CDefs "$defs" ds] | Err e => Err e | Panic w => Panic w | Diverge => Diverge end
-             | D7 => Ok []
-             end)
-          else if String.eqb k "type" then lift_schema (compile_type v) CSimple
-          else if String.eqb k "enum" then
-            (match v with
-             | JArr vals =>
-                 match d with
-                 | D7 => if Nat.eqb (List.length vals) 0 then E_schema else Ok [CSimple (SEnum vals)]
-                 | D2020 => Ok [CSimple (SEnum vals)]
-                 end
-             | _ => E_schema
-             end)
-          else if String.eqb k "const" then Ok [CSimple (SConst v)]
-          else if String.eqb k "minimum" then compile_num SMin v
-          else if String.eqb k "maximum" then compile_num SMax v
-          else if String.eqb k "exclusiveMinimum" then compile_num SXMin v
-          else if String.eqb k "exclusiveMaximum" then compile_num SXMax v
-          else if String.eqb k "multipleOf" then
-            (match v with JNum q => if Qlt_bool 0 q then Ok [CSimple (SMultipleOf q)] else E_schema | _ => E_schema end)
-          else if String.eqb k "minLength" then compile_count SMinLen v
-          else if String.eqb k "maxLength" then compile_count SMaxLen v
-          else if String.eqb k "minItems" then compile_count SMinItems v
-          else if String.eqb k "maxItems" then compile_count SMaxItems v
-          else if String.eqb k "pattern" then
-            (match v with
-             | JStr p => match parse_pattern p with Some q => Ok [CSimple (SPattern q)] | None => E_unsupported end
-             | _ => E_schema
-             end)
-          else if String.eqb k "required" then
-            (match v with
-             | JArr l => match opt_all (map as_string l) with
-                         | Some ks => if str_nodup ks then Ok [CSimple (SRequired ks)] else E_schema
-                         | None => E_schema
-                         end
-             | _ => E_schema
-             end)
-          else if String.eqb k "properties" then
-            (match sub_map v with Ok ps => Ok [CProps ps] | Err e => Err e | Panic w => Panic w | Diverge => Diverge end)
-          else if String.eqb k "additionalProperties" then lift_schema (sub v) CAddProps
-          else if String.eqb k "items" then
-            (match v with
-             | JArr _ =>
-                 match d with
-                 | D7 => lift_list (sub_list v false) CItemsA
-                 | D2020 => E_schema
-                 end
-             | _ => lift_schema (sub v) CItemsS
-             end)
-          else if String.eqb k "additionalItems" then
-            (match d with D7 => lift_schema (sub v) CAddItems | D2020 => Ok [] end)
-          else if String.eqb k "prefixItems" then
-            (match d with D2020 => lift_list (sub_list v true) CPrefix | D7 => Ok [] end)
-          else if String.eqb k "allOf" then lift_list (sub_list v true) (fun l => CSimple (SAllOf l))
-          else if String.eqb k "anyOf" then lift_list (sub_list v true) (fun l => CSimple (SAnyOf l))
-          else if String.eqb k "oneOf" then lift_list (sub_list v true) (fun l => CSimple (SOneOf l))
-          else if String.eqb k "not" then lift_schema (sub v) (fun s => CSimple (SNot s))
-          else if str_in k unmodelled_keywords then E_unsupported
-          else Ok []                                   (* unknown member: ignored, its value is not inspected *)
-        ) o) with
-      | Ok cks => let l := concat cks in Ok (assemble d l, l)
+      match seq_res (map (fun kv => compile_member (fun x => res_map fst (compile_node d x)) d (fst kv) (snd kv)) o) with
+      | Ok cks => let l := List.concat cks in Ok (assemble d l, l)
       | Err e => Err e
       | Panic w => Panic w
       | Diverge => Diverge
@@ -552,10 +567,10 @@ Definition compile_root (root : json) : res compiled :=
   match detect_draft root with
   | Ok d =>
       match compile_node d root with
-      | Ok (S, cks) =>
-          let E := ("#", S) :: defs_of cks in
+      | Ok (sc, cks) =>
+          let E := ("#", sc) :: defs_of cks in
           if forallb (fun ns => refs_resolve E (snd ns)) E
-          then Ok {| c_draft := d; c_root := S; c_env := E |}
+          then Ok {| c_draft := d; c_root := sc; c_env := E |}
           else Err "schema-ref"
       | Err e => Err e | Panic w => Panic w | Diverge => Diverge
       end
